@@ -155,6 +155,7 @@ func init() {
 		sc := efundScenario()
 		sc.Name = "efund-supply-queries"
 		sc.Visit = supplyQueries
+		sc.VisitPure = true
 		// a third and fourth denomination so that pagination has something to page over
 		for i := range sc.Genesis.Accounts {
 			if sc.Genesis.Accounts[i].Name == "O" {
